@@ -69,21 +69,23 @@ theorem encMan_reload_eq {ctx : Ctx κ} (g : Good ctx) {sch sch' : Schema} {p p'
   rw [h, g.dec] at h1
   exact (Option.some.inj h1).symm
 
-/-- Reading a manifest only depends on the bytes of the object found. -/
+/-- Reading a manifest only depends on the bytes of the object found (the entries read must have
+valid names, otherwise `readManifest` rejects the manifest). -/
 theorem readManifest_of_bytes {ctx : Ctx κ} (g : Good ctx) {s : Store κ} {d : Digest} {o : Obj κ}
     {sch : Schema} {p : Bytes} {cs : List Child} (h : s.get d = some o)
-    (hb : o.bytes ctx = ctx.encMan sch p cs) :
+    (hb : o.bytes ctx = ctx.encMan sch p cs) (hok : ChildrenOK (cs.map (ctx.reload sch))) :
     readManifest ctx s d = .ok (cs.map (ctx.reload sch)) := by
-  unfold readManifest
-  rw [h]
+  rw [readManifest_eq, h]
   cases o with
   | blob c =>
     simp only [Obj.bytes] at hb
     subst hb
-    simp [g.dec]
+    simp only [g.dec]
+    exact checkedChildren_ok hok
   | man sch' p' cs' =>
     simp only [Obj.bytes] at hb
-    simp [encMan_reload_eq g hb]
+    simp only [encMan_reload_eq g hb]
+    exact checkedChildren_ok hok
 
 /-! ## `deref` is monotone on trees that resolve completely -/
 
@@ -306,13 +308,12 @@ theorem mem_allNamesList_filter (p : Name × Node κ → Bool) : ∀ (es : List 
 theorem readManifest_eq_dec {ctx : Ctx κ} (g : Good ctx) {s : Store κ} {d : Digest} {o : Obj κ}
     (h : s.get d = some o) :
     readManifest ctx s d = match ctx.decBlob (o.bytes ctx) with
-      | some cs => .ok cs
+      | some cs => checkedChildren cs
       | none => .error .badManifest := by
-  unfold readManifest
-  rw [h]
+  rw [readManifest_eq, h]
   cases o with
-  | blob c => simp only [Obj.bytes]; cases ctx.decBlob c <;> rfl
-  | man sch p cs => simp [Obj.bytes, g.dec]
+  | blob c => rfl
+  | man sch p cs => simp only [Obj.bytes, g.dec]
 
 theorem readManifest_bytes {ctx : Ctx κ} (g : Good ctx) {s s1 : Store κ} {d : Digest}
     {o o1 : Obj κ} (h : s.get d = some o) (h1 : s1.get d = some o1)
@@ -345,10 +346,12 @@ theorem findChild_name {old : List Child} {nm : Bytes} {k : Child}
 
 theorem findChild_nil (nm : Bytes) : findChild [] nm = none := rfl
 
-/-- commit accepts and the decoder leaves alone every entry name of the listing (at any depth) -/
+/-- commit accepts, the decoder leaves alone and `readManifest` accepts every entry name of the
+listing (at any depth) -/
 def NamesOKList (ctx : Ctx κ) (es : List (Name × Node κ)) : Prop :=
   ∀ nm, nm ∈ allNamesList es → ctx.nameOK nm = true ∧
-    ∀ sch sum isDir, ctx.reload sch ⟨nm, sum, isDir⟩ = ⟨nm, sum, isDir⟩
+    (∀ sch sum isDir, ctx.reload sch ⟨nm, sum, isDir⟩ = ⟨nm, sum, isDir⟩) ∧
+    entryNameOK nm = true
 
 theorem namesOK_node {ctx : Ctx κ} {nm : Name} {n : Node κ} {r : List (Name × Node κ)}
     (h : NamesOKList ctx ((nm, n) :: r)) : NamesOK ctx n :=
@@ -361,7 +364,24 @@ theorem namesOK_tail {ctx : Ctx κ} {nm : Name} {n : Node κ} {r : List (Name ×
 theorem namesOK_head {ctx : Ctx κ} {nm : Name} {n : Node κ} {r : List (Name × Node κ)}
     (h : NamesOKList ctx ((nm, n) :: r)) : ctx.nameOK nm = true ∧
       ∀ sch sum isDir, ctx.reload sch ⟨nm, sum, isDir⟩ = ⟨nm, sum, isDir⟩ :=
-  h nm mem_allNamesList_head
+  ⟨(h nm mem_allNamesList_head).1, (h nm mem_allNamesList_head).2.1⟩
+
+theorem namesOK_head_entry {ctx : Ctx κ} {nm : Name} {n : Node κ} {r : List (Name × Node κ)}
+    (h : NamesOKList ctx ((nm, n) :: r)) : entryNameOK nm = true :=
+  (h nm mem_allNamesList_head).2.2
+
+/-- the names of the direct entries of a listing with valid names -/
+theorem NamesOKList.entry {ctx : Ctx κ} {es : List (Name × Node κ)} (h : NamesOKList ctx es)
+    {e : Name × Node κ} (he : e ∈ es) : entryNameOK e.1 = true :=
+  (h e.1 (mem_allNamesList_of_mem he)).2.2
+
+/-- the reference children of a listing with valid names are accepted by `readManifest` -/
+theorem childrenOK_childrenOf {ctx : Ctx κ} : ∀ {es : List (Name × Node κ)},
+    NamesOKList ctx es → ChildrenOK (childrenOf ctx es)
+  | [], _ => by simpa [childrenOf] using ChildrenOK.nil
+  | (_, _) :: _, h => by
+    simp only [childrenOf]
+    exact ChildrenOK.cons (namesOK_head_entry h) (childrenOK_childrenOf (namesOK_tail h))
 
 theorem namesOK_dir {ctx : Ctx κ} {es : List (Name × Node κ)} (h : NamesOK ctx (.dir es)) :
     NamesOKList ctx es := fun x hx => h x (by simpa [allNames] using hx)
